@@ -9,7 +9,7 @@
     histories judged by the extracted monitor. "Eventually re-establishes a Selected session" is
     liveness (fair scheduling, reachable peer): observed by the harness in every run, not proved. *)
 From Coq Require Import ZArith Bool List Lia.
-From GoSecs Require Import Gen.Gen Gen.BridgeBackoff Hsms.Backoff Hsms.BackoffProofs Hsms.Lifecycle Hsms.LifecycleInv Hsms.LifecycleProofs.
+From GoSecs Require Import Gen.Gen Gen.BridgeBackoff Hsms.Backoff Hsms.BackoffProofs Hsms.Lifecycle Hsms.LifecycleInv Hsms.LifecycleProofs Hsms.LifecycleRecovery.
 Import ListNotations.
 Close Scope Z_scope.
 
@@ -137,6 +137,57 @@ Example C11_loop_exists_nonvacuous :
   exists s, Lifecycle_run (Lifecycle_init true) (firstn 13 C11_trace) = Some s /\
             lc_is_alive (lc_sup s) = true /\ lc_shutdown s = false /\ lc_is_nc (lc_st s) = true /\ lc_hasloop s = true.
 Proof. eexists. split; [vm_compute; reflexivity|]. repeat split. Qed.
+
+(** * Recoverability (possibility liveness, the AG EF form of "an open connection recovers")
+
+    From EVERY reachable state in which Open has been called and Close has not (supervisor alive,
+    shutdown clear, no Close or rollback in progress — including an Open still inside its Start),
+    there is a trace that uses only COOPERATIVE actions — the library's own internal steps and a
+    friendly environment: dials / listens succeed, a peer connects, Select is answered with status 0;
+    no API call, no new fault, no silent goroutine death — of length at most
+    22 + (queued disconnect events) + (linktest and T7 goroutines still to be joined), after which the
+    connection is a live Selected session (state Selected, receive goroutine alive, generation not
+    being torn down). No reachable state of the model is wedged. The seeded change
+    C11-secs1-eot-write-failure-not-reported produced exactly such a wedged state in the code: in the
+    model it is the receive goroutine ending silently on a live generation, which [Lifecycle_exec]
+    does not allow ([LcRecvExit false] requires the teardown to have begun) and which the e2e cut
+    matrix checks on the real transports.
+
+    NOT proved: liveness proper — that under fair scheduling and an eventually reachable peer the real
+    connection recovers in real time (the sleeps between attempts are finite and bounded by T5:
+    [C11_backoff]). The e2e passes observe it in every run. *)
+Theorem C11_recovery_possible : forall s, Lifecycle_reachable s -> lc_intent s = true ->
+  exists tr s', Lifecycle_run s tr = Some s' /\ lc_up s' = true /\
+                forallb lc_cooperative tr = true /\ length tr <= lc_recover_bound s.
+Proof.
+  intros s Hr Hn.
+  destruct (lc_recover_by_rank (lc_rank s) s (le_n _) (proj1 (Lifecycle_reachable_inv s Hr)) Hn)
+    as (tr & s' & H1 & H2 & H3 & H4 & _).
+  exists tr, s'. repeat split; try assumption. exact (Nat.le_trans _ _ _ H4 (lc_rank_bound s)).
+Qed.
+Print Assumptions C11_recovery_possible.
+
+(** Every step of the fixed strategy is enabled, cooperative, keeps the intent and strictly decreases
+    the ranking function (the lemma the theorem is an induction over). *)
+Theorem C11_recovery_step : forall s, lc_inv s = true -> lc_intent s = true -> lc_up s = false ->
+  exists s', Lifecycle_exec s (lc_next s) = Some s' /\ lc_rank s' < lc_rank s /\ lc_intent s' = true /\
+             lc_cooperative (lc_next s) = true.
+Proof. exact lc_next_step. Qed.
+Print Assumptions C11_recovery_step.
+
+(** Non-vacuity: a wedge-looking reachable state — the link was lost, the reconnect loop's first
+    re-dial has just failed, the failed generation is still draining (torn down, not joined), the
+    loop is waiting for it. Intent holds, the session is down; following the strategy for 12 steps (the ranking function says at most 14)
+    (join the generation, sleep, fences, publish, dial, select) reaches a live Selected session. *)
+Example C11_recovery_nonvacuous :
+  match Lifecycle_run (Lifecycle_init true) (firstn 25 C11_trace) with
+  | Some s =>
+    lc_intent s && negb (lc_up s) && lc_hasloop s && lc_etd s && negb (lc_edone s) && (lc_rank s =? 14) &&
+    forallb lc_cooperative (lc_follow 40 s) && (length (lc_follow 40 s) =? 12) &&
+    match Lifecycle_run s (lc_follow 40 s) with Some s' => lc_up s' | None => false end
+  | None => false
+  end = true.
+Proof. vm_compute. reflexivity. Qed.
 
 (** The constants the model and the harness logs name ARE the current source (regenerated on every check). *)
 Theorem C11_bridge_constants :
